@@ -1182,6 +1182,9 @@ class Sym:
                       'UserDefinedConversion', 'FunctionToPointerDecay'):
                 if 'cv' in e and v[0] != 'k':
                     v = ('k', int(e['cv']), 'int')
+                elif ck == 'IntegralCast' and 'cv' in e and v[0] == 'k' and isinstance(v[1], int) and int(e['cv']) != v[1]:
+                    # the conversion of a constant changes its value (-1 to an unsigned type): the converted value is the one used
+                    v = ('k', int(e['cv']), v[2] if len(v) > 2 else 'int')
                 out.append((s, v))
             elif ck == 'Dynamic' and isinstance(v, tuple) and v[0] == 'addr' and isinstance(v[1], tuple) and v[1][0] == 'obj' and v[1][1] in s.heap:
                 # dynamic_cast on an object whose class is known: the pointer when that class is, or derives from, the
